@@ -24,7 +24,9 @@ const (
 // the task that created it.
 type SimWriter struct {
 	T        *Task
-	H        http.Header
+	H        http.Header // what the client sees: the live map until the header is sent, a frozen copy afterwards
+	live     http.Header // what Header() hands out
+	sentHdr  bool
 	Statuses []int  // every WriteHeader call
 	Body     []byte // accepted bytes
 	Chunks   []int  // len(p) of every Write call
@@ -43,9 +45,21 @@ type SimWriter struct {
 	LateWrites int // Write calls after the take-over
 }
 
-func NewSimWriter(t *Task) *SimWriter { return &SimWriter{T: t, H: http.Header{}} }
+func NewSimWriter(t *Task) *SimWriter {
+	h := http.Header{}
+	return &SimWriter{T: t, H: h, live: h}
+}
 
-func (w *SimWriter) Header() http.Header { return w.H }
+func (w *SimWriter) Header() http.Header { return w.live }
+
+// sendHeader: as with net/http's writer, the header goes out with the first WriteHeader, Write or
+// Flush; what is set or deleted in the map afterwards never reaches the client.
+func (w *SimWriter) sendHeader() {
+	if !w.sentHdr {
+		w.sentHdr = true
+		w.H = w.live.Clone()
+	}
+}
 
 // here is a schedule point of the RUNNING task. A writer reached from another request's goroutine
 // (a compressor shared between two responses does that) is recorded, never followed: the yield is
@@ -65,6 +79,7 @@ func (w *SimWriter) here(site Site) {
 
 func (w *SimWriter) WriteHeader(status int) {
 	w.here(SiteWHeader)
+	w.sendHeader()
 	w.Statuses = append(w.Statuses, status)
 }
 
@@ -75,6 +90,7 @@ func (w *SimWriter) Write(p []byte) (int, error) {
 		w.LateWrites++
 		return 0, http.ErrHijacked
 	}
+	w.sendHeader()
 	k := len(w.Chunks)
 	w.Chunks = append(w.Chunks, len(p))
 	n := len(p)
@@ -114,6 +130,7 @@ type SimFlushWriter struct{ *SimWriter }
 
 func (w SimFlushWriter) Flush() {
 	w.here(SiteWFlush)
+	w.sendHeader()
 	w.Flushes++
 }
 
